@@ -1,9 +1,90 @@
-//! C21: not built yet.
+//! C21: the analyzer completes on every well-formed input and its output is well-formed.
+//! One case = one invocation of the real CLI binary on a generated P-Code project + ELF image.
+use crate::cli;
 use crate::out::Out;
-use serde_json::Value;
+use crate::pcodegen::Knobs;
+use crate::rng::Rng;
+use serde_json::{json, Value};
 
-pub fn gen(_out: &mut Out, _sub: &str) {}
+pub const TRIGGERS: [&str; 14] = ["malloc", "free", "printf", "system", "umask", "chroot", "access", "open", "rand", "ioctl", "strcpy", "setuid", "memcpy", "scanf"];
 
-pub fn replay(_run: &[Value], _sub: &str) -> Vec<Value> {
-    Vec::new()
+pub fn knobs(rng: &mut Rng, lkm: bool) -> Knobs {
+    let mut must = Vec::new();
+    for t in TRIGGERS {
+        if rng.chance(1, 2) {
+            must.push(t);
+        }
+    }
+    Knobs { n_funcs: 1 + rng.below(6) as usize, max_blocks: 3 + rng.below(8) as usize, must_call: must, lkm }
+}
+
+/// Modules that have a section in the shipped lkm_config.json (the kernel-module subset).
+pub const LKM_MODULES: [&str; 9] = ["CWE134", "CWE190", "CWE215", "CWE252", "CWE416", "CWE467", "CWE476", "CWE676", "CWE789"];
+
+/// k = 0 default run, 1 all checks, 2 single check, 3 random subset (with duplicate / empty names).
+/// For kernel-module inputs partial selections stay inside the modules the shipped lkm_config.json
+/// configures (selecting an unconfigured check is a configuration error, not a well-formed run).
+pub fn selection(rng: &mut Rng, k: u64, lkm: bool) -> Option<String> {
+    let all: Vec<&str> = if lkm { LKM_MODULES.to_vec() } else { cli::ALL_MODULES.to_vec() };
+    match k {
+        0 => None,
+        1 => Some(all.join(",")),
+        2 => Some(rng.pick(&all).to_string()),
+        _ => {
+            let mut v: Vec<&str> = all.iter().cloned().filter(|_| rng.chance(1, 3)).collect();
+            rng.shuffle(&mut v);
+            if rng.chance(1, 6) && !v.is_empty() {
+                v.push(v[0]); // a duplicate name
+            }
+            let mut s = v.join(",");
+            if rng.chance(1, 8) {
+                s.push(','); // an empty name
+            }
+            Some(s)
+        }
+    }
+}
+
+pub fn exec(input: &Value) -> Value {
+    // inputs are regenerated from (seed, index): the files are a function of them
+    let seed = input["gen_seed"].as_u64().unwrap();
+    let kind = input["kind"].as_str().unwrap();
+    let dir = input["dir"].as_str().unwrap();
+    let id = input["id"].as_str().unwrap();
+    let mut rng = Rng::new(seed);
+    let kn = knobs(&mut rng, kind == "lkm");
+    let (pj, bp) = cli::materialize(dir, id, &mut rng, &kn, kind);
+    let partial = if input["has_partial"].as_bool().unwrap() { Some(input["partial_raw"].as_str().unwrap().to_string()) } else { None };
+    let mut ev = cli::invoke(&pj, &bp, kind == "lkm", partial.as_deref(), 120);
+    for k in ["gen_seed", "kind", "dir", "id"] {
+        ev[k] = input[k].clone();
+    }
+    ev
+}
+
+pub fn replay(run: &[Value], _sub: &str) -> Vec<Value> {
+    run.iter().filter(|e| e["ev"] == "cli").map(exec).collect()
+}
+
+pub fn gen(out: &mut Out, _sub: &str) {
+    let mut rng = Rng::new(out.seed ^ 0xC21);
+    let n = out.size(48, 1500);
+    let dir = std::env::var("VERIF_SCRATCH").unwrap_or_else(|_| "/verif/.build/cli_inputs".to_string());
+    let mut inputs = Vec::new();
+    for i in 0..n {
+        let gen_seed = rng.next();
+        let kind = match rng.below(8) { 0 => "lkm", 1 => "rel", _ => "exec" };
+        let nsel = out.size(3, 4);
+        for k in 0..nsel {
+            let kk = if k < 2 { k } else { 2 + rng.below(2) };
+            let sel = selection(&mut rng, kk, kind == "lkm");
+            inputs.push(json!({"gen_seed": gen_seed, "kind": kind, "dir": dir, "id": format!("c21_{}_{}", i, k),
+                               "has_partial": sel.is_some(), "partial_raw": sel.unwrap_or_default()}));
+        }
+    }
+    let events = crate::par::map(inputs, 8, |inp| exec(&inp));
+    for ev in events {
+        let nt = ev["warnings"].as_array().map(|a| !a.is_empty()).unwrap_or(false);
+        out.emit(vec![ev], nt);
+    }
 }
